@@ -18,16 +18,18 @@ theorem extract_eq_slice (p : Parser) (s : Span) : (p.buf.extract s.off (s.off +
 /-- result of passing a value sitting in level `lvlIdx` -/
 structure PassedV (st st' : LoopSt) (v : Value) : Prop where
   base : Passed st st' (encode v).length (viewsOf (st.p.getLvl st.p.lvlIdx).ad v)
+  ad : (st'.p.getLvl st.p.lvlIdx).ad = (st.p.getLvl st.p.lvlIdx).ad
   name : (st'.p.getLvl st.p.lvlIdx).name = (st.p.getLvl st.p.lvlIdx).name
   flags : (st'.p.getLvl st.p.lvlIdx).flags = afterFlags (st.p.getLvl st.p.lvlIdx) v.isArr
 
 theorem Deep.after {st st' : LoopSt} {oa od : Nat} {len : Nat} {vs : List EvView} (hD : Deep st oa od)
-    (hp : Passed st st' len vs) : Deep st' oa od := by
+    (hp : Passed st st' len vs) (had : (st'.p.getLvl st.p.lvlIdx).ad = (st.p.getLvl st.p.lvlIdx).ad) : Deep st' oa od := by
   have hi : st'.p.lvlIdx = st.p.lvlIdx := by unfold Parser.lvlIdx; rw [hp.depth]
-  refine ⟨hp.shape, hp.err, by rw [hp.scan]; exact hD.cont, by rw [hp.depth]; exact hD.d1, ?_, ?_, ?_, by rw [hp.frame.2.2.1]; exact hD.md255⟩
-  · rw [hp.depth, hi, hp.ad]; exact hD.deeper
+  refine ⟨hp.moved.shape, hp.moved.err, by rw [hp.moved.scan]; exact hD.cont, by rw [hp.depth]; exact hD.d1, ?_, ?_, ?_,
+    by rw [hp.moved.frame.2.2.1]; exact hD.md255⟩
+  · rw [hp.depth, hi, had]; exact hD.deeper
   · intro i h; rw [hp.depth] at h; exact hp.zeros i h
-  · rw [hp.frame.2.2.2.1, hp.depth, hi, hp.ad]; exact hD.rootArr
+  · rw [hp.moved.frame.2.2.2.1, hp.depth, hi, had]; exact hD.rootArr
 
 theorem rem_of_frame {p q : Parser} (hb : q.buf = p.buf) (hu : q.used = p.used + n) {bs rest : Bytes} (hs : Shape p)
     (h : p.rem = bs ++ rest) (hn : bs.length = n) : q.rem = rest := by
@@ -83,19 +85,19 @@ theorem scalar_passed {st : LoopSt} {sn : Option (List UInt8)} {oa od : Nat} (hD
     intro i; rw [getLvl_setLvl _ hli' i]; split
     · rfl
     · rw [hq]; rfl
-  refine ⟨_, hit, ?_, ?_, ⟨⟨t1, ?_, ?_, rfl, ?_, t2, ?_, ?_, ?_, ?_⟩, ?_, ?_⟩⟩
+  refine ⟨_, hit, ?_, ?_, ⟨⟨⟨t1, ?_, ?_, rfl, t2, ?_, ?_⟩, ?_, ?_⟩, ?_, ?_, ?_⟩⟩
   · show (q.setLvl st.p.lvlIdx nl).used = _; rw [t4, hq]
   · show (q.setLvl st.p.lvlIdx nl).buf = _; exact t2.2.1
   · show (q.setLvl st.p.lvlIdx nl).err = _; rw [t6, hq]; exact hD.err
   · show (q.setLvl st.p.lvlIdx nl).used = _; rw [t4, hq, hlen]
-  · show (q.setLvl st.p.lvlIdx nl).depth = _; rw [t5, hq]
   · intro i hi; show (q.setLvl st.p.lvlIdx nl).getLvl i = _; rw [hg]; simp [Nat.ne_of_lt hi]
+  · exact ⟨[(tok, nl)], rfl, by simpa using hview⟩
+  · show (q.setLvl st.p.lvlIdx nl).depth = _; rw [t5, hq]
   · intro i hi; show (q.setLvl st.p.lvlIdx nl).getLvl i = _; rw [hg]
     have hd1 := hD.d1
     have : i ≠ st.p.lvlIdx := by omega
     simp only [this, if_false]; exact hD.zeros i hi
   · show ((q.setLvl st.p.lvlIdx nl).getLvl st.p.lvlIdx).ad = _; rw [hg]; simp [n3]
-  · exact ⟨[(tok, nl)], rfl, by simpa using hview⟩
   · show ((q.setLvl st.p.lvlIdx nl).getLvl st.p.lvlIdx).name = _; rw [hg]; simp [n1]
   · show ((q.setLvl st.p.lvlIdx nl).getLvl st.p.lvlIdx).flags = _; rw [hg, hv]; simp [n2]
 
